@@ -177,6 +177,9 @@ def correspondence(ctx):
         for cls in ("interior", "boundary"):
             t, v = S.true_var(cls)
             cands.append((cls, v, t.obj))
+        if kind == "qmpt":
+            for t in ts.edge_objects(S.c_sys, kind, m, flag)[:(3 if ctx.quick else 99)]:
+                cands.append((t.label, t.var(flag), t.obj))
         vr = np.round(S.g.standard_normal(nv) * 256) / 1024
         cands.append(("nonphysical", vr, None))
         e = np.zeros(nv); e[int(S.g.integers(0, nv))] = 1.0
@@ -342,8 +345,12 @@ def _check_setup(ctx, spec, full_basis=True):
                             f"but the circuit gives {np.round(c, 6)} (max diff {dlt:.3e})", rep)
                 return
     # --- library paths: generate_prob_dists_sequence, calc_prob_dist(s) for physical candidates
-    for cls in ("interior", "boundary", "pure"):
-        t, v = S.true_var(cls)
+    cand = [S.true_var(cls)[0] for cls in ("interior", "boundary", "pure")]
+    if kind != "qpt":
+        # boundary candidates with exact zero-probability outcomes that are not the last outcome
+        cand += ts.edge_objects(S.c_sys, kind, S.m, flag)
+    for t in cand:
+        cls, v = t.label, t.var(flag)
         ctx.case(("oracle-paths", spec, cls), sample={"check": "calc_prob_dists / generate_prob_dists_sequence", "true": cls})
         ref = ts.born_reference(kind, S.rhos, S.pmats, S.schedules, t)
         try:
@@ -411,15 +418,69 @@ PARTIAL = [
     {"theorem": "QM.C08.calcProbDists_eq_circuit_partial",
      "missing": "schedules with different outcome counts: calc_prob_dists' reshape((num_schedules,-1)) is wrong there "
                 "(defect D8; negation witnesses calcProbDists_mixed_counts_fails / _regroups_fails)"},
-    {"theorem": "QM.C08.qst_cols / qpt_cols",
-     "missing": "column-count theorems for POVMT and QMPT rows (covered by the correspondence op `coeffs` and the oracle's shape check only)"},
     {"theorem": "QM.C08.qmpt_walk_eq_born",
      "missing": "eps_zero clipping and truncate_and_normalize inside compose_qoperations are not modelled (hypothesis p_x ≠ 0)"},
 ]
 
 
+THETAS = [np.pi / 2, 0.3, 1e-2, 1e-3, 1e-4, 1e-5, 1e-6, 1e-7]
+
+
+def check_near_redundant(ctx):
+    """informationally complete but nearly redundant tester sets (1 qubit; tester axes z, x and (cos θ, sin θ, 0) with
+    θ → 0): as long as the singular values of the probed operators stay far above numpy's rank tolerance
+    (σmin/σmax > 1e-11), matA must be reported as full rank"""
+    c_sys = ts.make_csys("qubit")
+    B = ts.basis_stack(c_sys)
+    I2 = np.eye(2, dtype=complex)
+    sx = np.array([[0, 1], [1, 0]], dtype=complex)
+    sy = np.array([[0, -1j], [1j, 0]], dtype=complex)
+    sz = np.array([[1, 0], [0, -1]], dtype=complex)
+
+    def proj(nv, sign=1.0):
+        return (I2 + sign * (nv[0] * sx + nv[1] * sy + nv[2] * sz)) / 2
+
+    for theta in THETAS:
+        axes = [np.array([0.0, 0.0, 1.0]), np.array([1.0, 0.0, 0.0]), np.array([np.cos(theta), np.sin(theta), 0.0])]
+        rhos = [proj(axes[0]), proj(axes[0], -1.0), proj(axes[1]), proj(axes[2])]
+        pmats = [[proj(a), proj(a, -1.0)] for a in axes]
+        states = [ts.State(c_sys, ts.vec_of(B, r_)) for r_ in rhos]
+        povms = [ts.Povm(c_sys, [ts.vec_of(B, e) for e in es]) for es in pmats]
+        for kind in ("qst", "povmt", "qpt"):
+            for flag in (True, False):
+                rep = {"kind": "near", "seed": ctx.seed, "theta": theta, "which": [kind, flag]}
+                try:
+                    qt = ts.build(kind, states, povms, flag, 2)
+                    A = np.array(qt.calc_matA(), copy=True)
+                    verdict = bool(qt.is_fullrank_matA())
+                except Exception as e:  # noqa
+                    ctx.violate(f"C08/is_fullrank_matA/{kind}/flag={flag}/near-redundant/raises-{type(e).__name__}",
+                                f"{type(e).__name__}: {e} for θ={theta}", rep)
+                    continue
+                if kind == "qst":
+                    probes = [e.flatten() for es in pmats for e in es]
+                elif kind == "povmt":
+                    probes = [r_.flatten() for r_ in rhos]
+                else:
+                    probes = [np.kron(e, r_.T).flatten() for r_ in rhos for es in pmats for e in es]
+                sv = np.linalg.svd(np.array(probes), compute_uv=False)
+                need = 4 if kind != "qpt" else 16
+                ratio = sv[need - 1] / sv[0]
+                sa = np.linalg.svd(A, compute_uv=False)
+                ratio_a = sa[-1] / sa[0]
+                ctx.case(("oracle-near", kind, flag, theta), nontrivial=theta < 1.0,
+                         sample={"check": "IC but nearly redundant", "kind": kind, "theta": theta, "sigma_ratio": float(ratio_a)})
+                ctx.count("oracle near-redundant IC tester sets" + ("" if min(ratio, ratio_a) > 1e-11 else " (skipped: below 1e-11)"))
+                if min(ratio, ratio_a) > 1e-11 and not verdict:
+                    ctx.violate(f"C08/is_fullrank_matA/{kind}/flag={flag}/near-redundant",
+                                f"{kind} flag={flag}, tester axes z, x, (cos θ, sin θ, 0) with θ={theta:g}: the testers are "
+                                f"informationally complete (σmin/σmax of matA = {ratio_a:.2e}, far above the rank tolerance) "
+                                f"but is_fullrank_matA() is False", rep)
+
+
 def oracle(ctx, volume=1):
     ctx.partial = PARTIAL
+    check_near_redundant(ctx)
     if not ctx.quick and volume == 1:
         # thorough tier: the quick configurations again with two more generator seeds (other random testers)
         for extra in (1, 2):
@@ -452,6 +513,8 @@ def replay(ctx, data):
     sub = Ctx("C08", "quick", int(r.get("seed", 0)))
     if r["kind"] == "setup":
         check_setup(sub, tuple(r["spec"]))
+    elif r["kind"] == "near":
+        check_near_redundant(sub)
     else:
         check_incomplete(sub)
     for v in sub.violations:
